@@ -21,7 +21,7 @@ from ..forkutil import fork_call
 from .common import Out, with_, drop_each, REAL_ALL, STUB_ALL
 
 ID = "C19"
-TIERS = {"quick": {"n": 900, "chunk": 14}, "thorough": {"n": 26000, "chunk": 80, "wall_cap": 3300}}
+TIERS = {"quick": {"n": 640, "chunk": 10}, "thorough": {"n": 16000, "chunk": 50, "wall_cap": 3300}}
 RULE = (
     "each scenario: 1-3 generated files (header cells drawn from plain names, names with spaces, quotes, leading quote, embedded newline, delimiter-like characters), 2-6 jobs drawn with repetition from "
     "{direct CsvPath, CsvPaths().csvpath(), one-member named run} x {collect, next, fast_forward} x generated csvpaths, cache cold or warmed by an earlier process; each job is compared with its pristine-process twin "
@@ -303,7 +303,7 @@ def execute(sc):
                         f"{text!r} ({job['entry']}), both in pristine processes: {d2[0]} with {job['kind']} creation = {json.dumps(d2[1], default=str)[:300]}, with {other['kind']} creation = {json.dumps(d2[2], default=str)[:300]}",
                         field=d2[0],
                     )
-            if n == 0 and sc["seed"] % 6 == 0 and not d:
+            if n == sc["seed"] % len(jobs) and not d:
                 # the same job once more, in a REAL fresh interpreter under another hash seed
                 import subprocess
                 import sys as _sys
